@@ -25,7 +25,7 @@ func propC04() *Property {
 			{ID: "R04.5", Floor: 4, Text: "PacketUnderlay.readOneSegment: failure edges of Decrypt / Unmarshal / parse* reach the next ReadFrom without returning a segment", Run: r04_5},
 			{ID: "R04.6", Floor: 32, Text: "direction whitelist of Session.input (shared with R05.6)", Run: func(c *RC) { r05_6(c) }},
 			{ID: "R04.8", Floor: 8, Text: "an inserted datagram of the wrong direction is dropped, not fatal: on the packet transport Session.input returns nil for every protocol its peer never sends (folded for 16 protocols x {client, server})", Run: r04_8},
-			{ID: "R04.9", Floor: 8, Text: "a discarded datagram is recovered like a lost one: deferral during open and the retransmission scan (shared with R02.7, R02.6)", Run: func(c *RC) { r02_7(c); r02_6(c) }},
+			{ID: "R04.9", Floor: 10, Text: "a discarded datagram is recovered like a lost one: deferral during open, the retransmission scan, and a cumulative ack releases only what lies strictly below it (shared with R02.7, R02.6, R13.3)", Run: func(c *RC) { r02_7(c); r02_6(c); r13_3(c) }},
 			{ID: "R04.7", Floor: 2, Text: "AEAD nonce discipline on the packet writer", Run: r04_7},
 		},
 	}
